@@ -181,15 +181,15 @@ class EncodeDecode(Family):
     name = 'encode_decode'
     nontrivial_rule = 'the (version, length) pair is encodable under BIP173'
 
-    HRPS = ['bc', 'tb', 'bcrt', 'a', '1x', 'x' * 49, 'y' * 50, 'z' * 51, 'q' * 83]
+    HRPS = ['bc', 'tb', 'bcrt', 'a', '1x', 'x' * 49, 'y' * 50, 'z' * 51, 'q' * 83, 'a1b', 'ab1cd', 'abcd1e', '11']       # '1' inside the prefix at the offsets where other prefixes end
 
     def shards(self, tier):
         return [('grid', h) for h in range(len(self.HRPS))] + [('onehot', 20), ('onehot', 32)]
 
     def cases(self, shard, tier):
         if shard[0] == 'grid':
-            for ver in range(0, 18):
-                for l in range(1, 42):
+            for ver in list(range(0, 18)) + [31, 32, 255, -1]:
+                for l in (range(1, 42) if ver < 18 else (20, 32)):
                     for pat in (0, 1, 2):
                         yield (shard[1], ver, l, pat, -1)
         else:
@@ -211,17 +211,26 @@ class EncodeDecode(Family):
             prog = bytearray(l)
             prog[bit // 8] = 0x80 >> (bit % 8)
             prog = bytes(prog)
-        want = R.encode(hrp, ver, prog) if ver <= 31 else None
+        want = R.encode(hrp, ver, prog) if 0 <= ver <= 31 else None
         if want is not None and R.decode(hrp, want) != (ver, prog):
             want = None
+        # the call before this one was a successful parse of a mainnet address, the call after it is a mixed-case string
+        if len(hrp) <= 40:
+            judge('bc', _valid_for('bc')[0], wrapper=False, what='mainnet address before')
+        failed = False
         try:
             got = SA.encode(hrp, ver, prog)
         except Exception as e:  # noqa
-            if want is None:
-                return 'unencodable', False
-            raise Viol('segwit_addr.encode(%r, %d, %d bytes) raised %s' % (hrp, ver, l, type(e).__name__), want, str(e))
-        if got != want:
+            if want is not None:
+                raise Viol('segwit_addr.encode(%r, %d, %d bytes) raised %s' % (hrp, ver, l, type(e).__name__), want, str(e))
+            failed = True
+        if not failed and got != want:
             raise Viol('segwit_addr.encode(%r, %d, %s)' % (hrp, ver, prog.hex()), want, got)
+        if len(hrp) <= 40:
+            v = _valid_for(hrp)[0]
+            mixed = v[:-1] + v[-1].upper() if v[-1].isalpha() else v[:len(hrp) + 2] + v[len(hrp) + 2:].upper()
+            if mixed != v and mixed != v.upper():
+                judge(hrp, mixed, wrapper=False, what='mixed case right after an encode call that %s' % ('raised' if failed else 'returned'))
         if want is None:
             return 'unencodable', False
         judge(hrp, want, what='round trip')
